@@ -824,6 +824,7 @@ def run_map_case(rng, tier, res):
 
 
 def run_perm_helpers(rng):
+    """Permutation helpers and named constructors of AffineMap (value semantics: inverse really inverts)."""
     from xdsl.ir.affine import AffineExpr, AffineMap
     n = rng.choice([1, 2, 3, 4])
     x = [rng.randint(-50, 50) for _ in range(n)]
@@ -833,18 +834,23 @@ def run_perm_helpers(rng):
     P = AffineMap(n, 0, tuple(AffineExpr.dimension(i) for i in res))
     info = {"map": str(P), "x": x}
     cnt("cases:perm")
-    inv = P.inverse_permutation()
-    if set(res) != set(range(n)):
-        cnt("perm_not_invertible")
-        if inv is not None:
-            violation("perm:inverse_permutation:not-none", f"{P} is not invertible but inverse_permutation gave {inv}", info)
-    elif inv is None:
-        violation("perm:inverse_permutation:none", f"{P} is invertible but inverse_permutation gave None", info)
-    else:
-        y = P.eval(x, [])
-        cnt("perm_inverse_checked")
-        if y != tuple(x[i] for i in res) or inv.num_dims != len(res) or inv.eval(list(y), []) != tuple(x):
-            violation("perm:inverse_permutation", f"inverse_permutation({P}) = {inv} does not invert it on {x}", info)
+    ok, inv = xcall("perm:inverse_permutation", info, P.inverse_permutation)
+    if ok:
+        if set(res) != set(range(n)):
+            cnt("perm_not_invertible")
+            if inv is not None:
+                violation("perm:inverse_permutation:not-none", f"{P} is not invertible but inverse_permutation gave {inv}", info)
+        elif inv is None:
+            violation("perm:inverse_permutation:none", f"{P} is invertible but inverse_permutation gave None", info)
+        else:
+            cnt("perm_inverse_checked")
+            ok, r = xcall("perm:inverse_permutation", info, lambda: (P.eval(x, []), inv.num_dims, inv.eval(list(P.eval(x, [])), [])))
+            if ok and r != (tuple(x[i] for i in res), len(res), tuple(x)):
+                violation("perm:inverse_permutation", f"inverse_permutation({P}) = {inv} does not invert it on {x}", info)
+    if len(res) > len(set(res)):
+        ok, r = xcall("perm:is_projected_permutation", info, P.is_projected_permutation)
+        if ok and r:
+            violation("perm:is_projected_permutation", f"duplicate dims accepted: {P}", info)
     # projected permutation with zeros
     k = rng.randint(0, n)
     items = [("d", i) for i in rng.sample(range(n), k)]
@@ -853,40 +859,41 @@ def run_perm_helpers(rng):
     rng.shuffle(items)
     Q = AffineMap(n, 0, tuple(AffineExpr.dimension(i[1]) if i[0] == "d" else AffineExpr.constant(0) for i in items))
     info = {"map": str(Q), "x": x}
-    if Q.is_projected_permutation(allow_zero_in_results=True) is not True or \
-            Q.is_projected_permutation() is not (zeros == 0):
-        violation("perm:is_projected_permutation", f"is_projected_permutation wrong for {Q}", info)
-    else:
-        inv = Q.inverse_and_broadcast_projected_permutation()
-        y = Q.eval(x, [])
-        z = inv.eval(list(y), [])
-        want = tuple(x[i] if ("d", i) in items else 0 for i in range(n))
+    want = tuple(x[i] if ("d", i) in items else 0 for i in range(n))
+    src = [f"v{i}" for i in range(n)]
+    want_applied = tuple(src[i[1]] for i in items if i[0] == "d")
+    ok, r = xcall("perm:is_projected_permutation", info,
+                  lambda: (Q.is_projected_permutation(allow_zero_in_results=True), Q.is_projected_permutation()))
+    if ok and r != (True, zeros == 0):
+        violation("perm:is_projected_permutation", f"is_projected_permutation wrong for {Q}: {r}", info)
+    elif ok:
         cnt("perm_broadcast_inverse_checked")
-        if z != want:
-            violation("perm:inverse_and_broadcast", f"inverse_and_broadcast_projected_permutation({Q}) = {inv}: {z} != {want}", info)
+        ok, z = xcall("perm:inverse_and_broadcast", info,
+                      lambda: Q.inverse_and_broadcast_projected_permutation().eval(list(Q.eval(x, [])), []))
+        if ok and z != want:
+            violation("perm:inverse_and_broadcast", f"inverse_and_broadcast_projected_permutation({Q}): {z} != {want}", info)
         if zeros == 0:
-            src = [f"v{i}" for i in range(n)]
-            if Q.apply_permutation(src) != tuple(src[i[1]] for i in items):
-                violation("perm:apply_permutation", f"apply_permutation wrong for {Q}", info)
-    # bad shapes are not projected permutations
-    if len(res) > len(set(res)) and P.is_projected_permutation():
-        violation("perm:is_projected_permutation", f"duplicate dims accepted: {P}", {"map": str(P)})
+            ok, z = xcall("perm:apply_permutation", info, Q.apply_permutation, src)
+            if ok and z != want_applied:
+                violation("perm:apply_permutation", f"apply_permutation wrong for {Q}: {z}", info)
     # named constructors
     s = [rng.randint(-9, 9) for _ in range(rng.choice([0, 1, 2]))]
     nr = rng.randint(0, n)
     checks = [
-        ("identity", AffineMap.identity(n, len(s)).eval(x, s), tuple(x) + tuple(s)),
-        ("minor_identity", AffineMap.minor_identity(n, nr).eval(x, []), tuple(x[n - nr:])),
-        ("constant_map", AffineMap.constant_map(x[0]).eval([], []), (x[0],)),
-        ("point_map", AffineMap.point_map(*x).eval([], []), tuple(x)),
-        ("transpose_map", AffineMap.transpose_map().eval([x[0], 7], []), (7, x[0])),
-        ("empty", AffineMap.empty().eval([], []), ()),
-        ("is_minor_identity", AffineMap.minor_identity(n, nr).is_minor_identity(), True),
+        ("identity", lambda: AffineMap.identity(n, len(s)).eval(x, s), tuple(x) + tuple(s)),
+        ("minor_identity", lambda: AffineMap.minor_identity(n, nr).eval(x, []), tuple(x[n - nr:])),
+        ("constant_map", lambda: AffineMap.constant_map(x[0]).eval([], []), (x[0],)),
+        ("point_map", lambda: AffineMap.point_map(*x).eval([], []), tuple(x)),
+        ("transpose_map", lambda: AffineMap.transpose_map().eval([x[0], 7], []), (7, x[0])),
+        ("empty", lambda: AffineMap.empty().eval([], []), ()),
+        ("is_minor_identity", lambda: AffineMap.minor_identity(n, nr).is_minor_identity(), True),
     ]
-    for name, got, want in checks:
+    winfo = {"n": n, "x": x, "s": s, "nr": nr}
+    for name, fn, wanted in checks:
         cnt("map_helper_checked")
-        if got != want:
-            violation("map:helpers:" + name, f"AffineMap.{name}: {got} != {want}", {"n": n, "x": x, "s": s, "nr": nr})
+        ok, got = xcall("map:helpers:" + name, winfo, fn)
+        if ok and got != wanted:
+            violation("map:helpers:" + name, f"AffineMap.{name}: {got} != {wanted}", winfo)
 
 
 # ====================================================================== plan / work / finish
